@@ -278,13 +278,19 @@ func (s *Solver) Check() Result {
 // CheckWith checks the stack plus extra assertions in a temporary scope.
 // If the result is Sat and want is non-empty, the values of those terms are returned.
 func (s *Solver) CheckWith(extra []*term.T, want []*term.T) (Result, map[int]uint64) {
-	s.Push()
+	// definitions are emitted at the current (stable) level so that they survive
+	// the temporary scope of this query
+	var erefs []string
 	for _, e := range extra {
-		s.Assert(e)
+		erefs = append(erefs, s.ref(e))
 	}
 	var refs []string
 	for _, w := range want {
 		refs = append(refs, s.ref(w))
+	}
+	s.Push()
+	for _, r := range erefs {
+		s.send("(assert " + r + ")")
 	}
 	r := s.Check()
 	var vals map[int]uint64
